@@ -49,6 +49,23 @@ def _test(pat: ast.pattern, subj: ast.expr, binds: list) -> Optional[ast.expr]:
         if pat.name:
             binds.append((pat.name, subj))
         return inner
+    if isinstance(pat, ast.MatchSequence) and not isinstance(subj, ast.Tuple):
+        # `[a, *_, b, c]` on a value that is a list wherever the tree builds it: a length test plus index bindings.  Only captures and
+        # wildcards as elements (`case [*_, d, _]`); the sequence-type test of the pattern is not expressed (a str subject would differ).
+        stars = [i for i, p in enumerate(pat.patterns) if isinstance(p, ast.MatchStar)]
+        if len(stars) > 1 or not all(isinstance(p, ast.MatchStar) or (isinstance(p, ast.MatchAs) and p.pattern is None) for p in pat.patterns):
+            raise ValueError('sequence pattern with sub-patterns')
+        k = len(pat.patterns) - len(stars)
+        ln = ast.Call(ast.Name('len', ast.Load()), [subj], [])
+        for i, p in enumerate(pat.patterns):
+            if isinstance(p, ast.MatchStar):
+                if p.name:
+                    hi = len(pat.patterns) - 1 - i
+                    binds.append((p.name, ast.Subscript(subj, ast.Slice(ast.Constant(i) if i else None, ast.UnaryOp(ast.USub(), ast.Constant(hi)) if hi else None, None), ast.Load())))
+            elif p.name:
+                idx = i if not stars or i < stars[0] else i - len(pat.patterns)
+                binds.append((p.name, ast.Subscript(subj, ast.Constant(idx) if idx >= 0 else ast.UnaryOp(ast.USub(), ast.Constant(-idx)), ast.Load())))
+        return ast.Compare(ln, [ast.GtE() if stars else ast.Eq()], [ast.Constant(k)])
     if isinstance(pat, ast.MatchSequence):
         if any(isinstance(p, ast.MatchStar) for p in pat.patterns):
             raise ValueError('star pattern')
